@@ -119,6 +119,18 @@ impl Drop for ClosureScope<'_> {
     }
 }
 
+struct LimitedSink(usize);
+impl std::fmt::Write for LimitedSink {
+    fn write_str(&mut self, s: &str) -> std::fmt::Result {
+        if s.len() > self.0 {
+            self.0 = 0;
+            return Err(std::fmt::Error);
+        }
+        self.0 -= s.len();
+        Ok(())
+    }
+}
+
 fn via_text(direct: bool) -> &'static str {
     if direct {
         "via=own-guard-or-own-scoped-closure-or-enclosing-guard"
@@ -261,7 +273,10 @@ impl<'r, 'a> St<'r, 'a> {
                     p.poisoned_err_seen += 1;
                 }
             });
-            if must && !is_err && !flying {
+            // (no exemption for an unwind still in flight: whoever panicked during an exclusive
+            // hold sets the flag before it releases the lock we just acquired)
+            let _ = flying;
+            if must && !is_err {
                 self.report_poison(ctx, &fl.poison[k], format!("acquisition through {:?} reported Ok for {:?} although a panic unwound during an exclusive hold on it since the last clear [{}]", ctx.acq.api, fl.poison[k], via_text(direct)));
             }
             if is_err && !may {
@@ -362,6 +377,7 @@ impl<'r, 'a> St<'r, 'a> {
                 }
                 BodyOp::Panic => {
                     self.note_user_panic(ctx);
+                    s.set_user_unwinding(true);
                     resume_unwind(Box::new(Injected));
                 }
                 BodyOp::GateOpen(g) => s.gate_open(*g),
@@ -417,6 +433,12 @@ impl<'r, 'a> St<'r, 'a> {
             NonAcqOp::Debug => {
                 let txt = format!("{:?}", node);
                 std::hint::black_box(&txt);
+            }
+            NonAcqOp::DebugLimited(n) => {
+                // a sink that fails part-way: formatting stops early with fmt::Error
+                use std::fmt::Write;
+                let mut w = LimitedSink(n as usize);
+                let _ = write!(w, "{:?}", node);
             }
             NonAcqOp::Accessors => accessors(node),
             NonAcqOp::Construct => {
@@ -968,6 +990,7 @@ impl<'r, 'a> Th<'r, 'a> {
     /// what must be true after an unwind left step `step`
     fn after_unwind(&mut self, step: &Step, payload: Box<dyn std::any::Any + Send>, recs: Vec<ApiRec>) {
         let s = self.st.s();
+        s.set_user_unwinding(false);
         let tid = self.st.tid;
         let lent = matches!(step, Step::Acquire(a) if a.lent_key && a.api.is_scoped());
         // the key: a lent key is still in the holder; an owned key was dropped by the unwind
@@ -989,6 +1012,13 @@ impl<'r, 'a> Th<'r, 'a> {
                         self.kh.alive = true;
                     }
                     None => s.report(Clause::KeyLostAfterPanic, format!("after a user panic in step {} unwound, ThreadKey::get() returns None", self.st.step)),
+                }
+            } else if lent && self.kh.key.is_some() {
+                // the lent key is still alive in the caller's hands: no second key may exist
+                self.st.probe(|p| p.key_probes += 1);
+                if let Some(k) = ThreadKey::get() {
+                    s.report(Clause::KeyModel, format!("after a user panic unwound out of a scoped call that was only lent the key (step {}), ThreadKey::get() returned a second key", self.st.step));
+                    self.kh.extra.push(k);
                 }
             }
             self.st.r.model.lock().unwrap().in_flight[tid].clear();
